@@ -40,6 +40,15 @@ CHECKS = {
  "C11": ("exploration", "deterministic simulation: op pairs/triples from the public API under the controlled scheduler with a writer-preferring lock model; deadlock = no enabled thread",
          "Programs of 1-3 ops per thread from a ~20-op catalogue over prepared allocator states, run under six scheduling strategies incl. PCT and directed preemption after pause points, discrete-event timers with optional early firing; verdict is the controller's blocked-forever detection.",
          "Trusted: lock model faithful to parking_lot (readers blocked by a queued writer; recursive read behind a queued writer blocks); every lock of rawdb/vecdb except exit/ and CachedVec goes through the shim (self-check: the real try_lock must succeed whenever the model grants).", "6 C11"),
+ "C14": ("exploration", "deterministic simulation: enumerated import matrix across restarts (entry point x version x format x auxiliary regions x database reopen)",
+         "All 1280 cells of the matrix are enumerated in the quick tier (run index = cell); each cell creates a vector through one entry point, closes it (optionally reopens the database) and reopens it through another with the same or another version/format, then checks what came back and what was left behind.",
+         "Trusted: element type u64; the 'never on I/O errors' clause is not exercisable (no fallible I/O on the import path of an existing vector).", "6 C14"),
+ "C16": ("fault_enumeration", "deterministic simulation: retention model + enumerated single-file faults on the change directory (deleted, truncated at every byte, length fields clobbered)",
+         "Commit/rollback histories under retention 0..6 against a model of the retained record set and the chain of committed states; per record the faults are enumerated: deletion, truncation at EVERY byte offset, every length-like field overwritten with out-of-range values; allocation size observed through a counting allocator.",
+         "Trusted: model of the retention rule (keep the newest k-1 records below the new stamp, drop the abandoned future); counting global allocator.", "6 C16"),
+ "C17": ("fault_enumeration", "deterministic simulation: stored-byte corruption at restart through the real open / import / rollback paths",
+         "One fault per run between a clean close and the next open: a metadata slot, vector header, page-index region, holes region or change record is bit-flipped, overwritten, field-targeted or truncated; decoders are reached only through Database::open, import, rollback and the public RegionMetadata::from_bytes.",
+         "Trusted: validity rules as listed in the property; reads after a successful import over garbage are not judged.", "6 C17"),
  "C13": ("exploration", "deterministic simulation: refused requests inside seeded histories, model unchanged + continuation",
          "Refused requests are issued at random points of rawdb histories (even runs) and vecdb histories (odd runs); the call must fail, the state must equal the unchanged model at once and through the continuation.",
          "Trusted: reference model; the refused-request catalogue (see DESIGN 6 C13).", "6 C13"),
